@@ -36,8 +36,9 @@ pub mod address {
     use std::net::SocketAddr;
     use std::net::SocketAddrV4;
     use std::net::SocketAddrV6;
-    use std::string::FromUtf8Error;
 
+    use anyhow::Result;
+    use anyhow::bail;
     use tokio_util::bytes::Buf;
     use tokio_util::bytes::BufMut;
     use tokio_util::bytes::Bytes;
@@ -46,7 +47,7 @@ pub mod address {
     use crate::protocol::address::Address;
     use crate::protocol::vmess::header::AddressType;
 
-    pub fn write_address_port(address: &Address, buf: &mut BytesMut) -> Result<(), io::Error> {
+    pub fn write_address_port(address: &Address, buf: &mut BytesMut) -> std::result::Result<(), io::Error> {
         match address {
             Address::Domain(host, port) => {
                 if host.is_empty() {
@@ -74,9 +75,21 @@ pub mod address {
         Ok(())
     }
 
-    pub fn read_address_port(buf: &mut Bytes) -> Result<Address, FromUtf8Error> {
+    pub fn read_address_port(buf: &mut Bytes) -> Result<Address> {
+        if buf.remaining() < 3 {
+            bail!("incomplete address: {} bytes", buf.remaining());
+        }
         let port = buf.get_u16();
-        let addr_type = AddressType::new(buf.get_u8());
+        let addr_type = AddressType::new(buf.get_u8())?;
+        let need = match addr_type {
+            AddressType::Ipv4 => 4,
+            AddressType::Domain if buf.has_remaining() => 1 + buf[0] as usize,
+            AddressType::Domain => 1,
+            AddressType::Ipv6 => 16,
+        };
+        if buf.remaining() < need {
+            bail!("incomplete address: {} of {} bytes", buf.remaining(), need);
+        }
         match addr_type {
             AddressType::Ipv4 => Ok(Address::from(SocketAddr::V4(SocketAddrV4::new(Ipv4Addr::from(buf.get_u32()), port)))),
             AddressType::Domain => {
